@@ -294,7 +294,7 @@ private:
             for( ; it != end; ++it, ++dst_it )
             {
                 unsigned char c = get_color( *it, gray_color_t() );
-                *dst_it = this->_palette[ c ];
+                *dst_it = this->palette_color( c );
             }
         }
     }
@@ -458,7 +458,7 @@ private:
 
         // pixels which the run-length stream leaves out ( offset coordinates, an early end of a row
         // or of the bitmap ) take the first color of the palette
-        rgba8_pixel_t const background = this->_palette.front();
+        rgba8_pixel_t const background = this->palette_color( 0 );
 
         using Buf_type = std::vector<rgba8_pixel_t>;
         Buf_type buf( this->_info._width, background );
@@ -525,14 +525,14 @@ private:
 
                     for( int i = 0; i < count; ++i )
                     {
-                        *dst_it++ = this->_palette[ cs[i & 1] ];
+                        *dst_it++ = this->palette_color( cs[i & 1] );
                     }
                 }
                 else
                 {
                     for( int i = 0; i < count; ++i )
                     {
-                        *dst_it++ = this->_palette[ second ];
+                        *dst_it++ = this->palette_color( second );
                     }
                 }
             }
@@ -617,7 +617,7 @@ private:
 
                             if( dst_it != dst_end )
                             {
-                                *dst_it++ = this->_palette[ index ];
+                                *dst_it++ = this->palette_color( index );
                             }
                         }
 
